@@ -841,3 +841,5 @@ def run(ctx, rep):
     rule_globalkind(ctx, rep)
     from rules import c02_enum
     c02_enum.run(ctx, rep)
+    from rules import c02_edge
+    c02_edge.run(ctx, rep)
